@@ -40,6 +40,9 @@ func init() {
 		var out []*vexplore.Scenario
 		out = append(out, &vexplore.Scenario{Name: "req-slow-peer-hist", Mode: "hist", Reset: kit.ResetGlobals, Cfg: vsched.Config{Race: true},
 			Body: func() { c04.SlowPeerHist(map[bool]int{false: 5, true: 6}[full]) }})
+		// concurrent Dials to several inproc addresses whose accept loops are busy: none is left blocked
+		out = append(out, &vexplore.Scenario{Name: "inproc-dials-waiting-for-several-busy-listeners", Mode: "enum", Reset: kit.ResetGlobals,
+			Cfg: vsched.Config{Race: true}, Body: c13.InprocBusyListeners, NeedCounters: []string{"waiting-dial-connected-when-its-listener-became-free"}})
 		// the retry timer of a request lands while its reply is being taken in (timers may fire early)
 		out = append(out, &vexplore.Scenario{Name: "drf:req-retry-timer-vs-reply", Mode: "sched", Bound: b, Reset: kit.ResetGlobals,
 			Cfg: vsched.Config{Race: true, EarlyTimers: true}, Body: c04.SchedTimerVsReply})
